@@ -884,7 +884,12 @@ class Unit:
                 if self is other:
                     amnt = ONE
                 else:
-                    if self._equiv is None or other._equiv is None:
+                    if self._equiv is None or other._equiv is None or \
+                            (self.qty_cls.ref_unit is None and
+                             self.normalized_definition.split()[1] !=
+                             other.normalized_definition.split()[1]):
+                        # without a reference unit there is a common scale
+                        # only for units derived from the same base units
                         raise UnitConversionError(
                             "Can't devide '%s' and '%s'.", self, other) \
                             from None
